@@ -72,4 +72,7 @@ where
 // proof harnesses for this module in from the directory named by
 // DATAFUSION_VERIF_DIR so that they can reach private items.
 #[cfg(kani)]
-include!(concat!(env!("DATAFUSION_VERIF_DIR"), "/kani/physical_plan/chain.rs"));
+include!(concat!(
+    env!("DATAFUSION_VERIF_DIR"),
+    "/kani/physical_plan/chain.rs"
+));
